@@ -103,12 +103,12 @@ Proof. split; vm_compute; reflexivity. Qed.
 (* shouldSendNotification: the notification row is read by processGetAlertNotification (its LastAlertState is an
    input of the translated function), the two time gates are computed by isCooldownOver / isSilenceMinutesOver
    (their results are inputs; the model's gate_over is their meaning, compared on the real code by ./check C20) *)
-Theorem gen_shouldSendNotification_is_model : forall (cur : astate) (nf : notif) (silence now : Z),
+Theorem gen_shouldSendNotification_is_model : forall (cur : astate) (nf : notif) (silence now : Z) (alertID : list Z),
   gen_shouldSendNotification (zcode (n_last_state nf))
-      (gate_over (n_cooldown nf) (n_last_sent nf) now) (gate_over silence (n_last_sent nf) now) (zcode cur)
+      (gate_over (n_cooldown nf) (n_last_sent nf) now) (gate_over silence (n_last_sent nf) now) alertID (zcode cur)
   = should_send cur nf silence now.
 Proof.
-  intros cur nf silence now. unfold gen_shouldSendNotification, should_send.
+  intros cur nf silence now alertID. unfold gen_shouldSendNotification, should_send.
   destruct cur; destruct (n_last_state nf);
   destruct (gate_over (n_cooldown nf) (n_last_sent nf) now); destruct (gate_over silence (n_last_sent nf) now); reflexivity.
 Qed.
